@@ -261,6 +261,17 @@ def r4_r5b_on_command(ctx, F):
     # ... or spelled out: `match map.entry(k) { Occupied(mut e) => { e.insert(v); } Vacant(e) => { e.insert(v); } }`
     occ = [c for c in b.calls if c.bb in blocks and c.is_('OccupiedEntry::insert')]
     vac = [c for c in b.calls if c.bb in blocks and c.is_('VacantEntry::insert')]
+    # ... with the occupied slot written through its reference: `*pending.get_mut() = v`
+    stored_through = {}
+    for c in b.calls:
+        if c.bb in blocks and c.is_('OccupiedEntry::get_mut', 'OccupiedEntry::into_mut') and not c.dest['p']:
+            for (i, si, st) in b.assigns(lambda st: st['lhs']['p'] == ['deref']):
+                lv = noref(b.local_val(st['lhs']['l']))
+                if i in blocks and (st['lhs']['l'] == c.dest['l'] or (lv.kind == 'call' and lv.key == c.bb)) and \
+                        st['rv']['k'] == 'use':
+                    occ.append(c)
+                    stored_through[c.bb] = st['rv']['op']
+                    break
     ok = (len(am) == 1 and len(oi) == 1) or len(ins) == 1 or (len(occ) == 1 and len(vac) == 1)
     ctx.check(ok, 'C17-R5', 'set-timer-overwrites', b,
               good='SetTimer writes the deadline on both the vacant and the occupied path',
@@ -284,6 +295,8 @@ def r4_r5b_on_command(ctx, F):
     from taint import origins
     for c in ins + occ + vac:
         vop = (c.args[2] if len(c.args) > 2 else None) if c in ins else (c.args[1] if len(c.args) > 1 else None)
+        if c.bb in stored_through:
+            vop = stored_through[c.bb]
         org = origins(b, vop) if vop is not None else set()
         good = bool(org)
         for o in org:
@@ -320,6 +333,8 @@ def r4_r5b_on_command(ctx, F):
                         dur_ops.append(o)
     for c in ins + occ + vac:
         vop = (c.args[2] if len(c.args) > 2 else None) if c in ins else (c.args[1] if len(c.args) > 1 else None)
+        if c.bb in stored_through:
+            vop = stored_through[c.bb]
         for o in origins(b, vop) if vop is not None else ():
             if not isinstance(o, (str, tuple)) and o.is_('Add::add') and len(o.args) > 1:
                 dur_ops.append(o.args[1])
